@@ -372,8 +372,9 @@ func ledgerAfterGenesis(cfg *genesis.GenesisConfig, addrs []types.Address) (bal 
 
 // monitorAccepted: the sentence of the property (= theorem check_genesis_sound) evaluated on the REAL ledger produced from
 // an ACCEPTED configuration: per declared token the balances add up to TotalSupply (<= MaxSupply, MaxSupply present), every
-// held token is declared, no amount is missing or negative, no address has two entries, the plasma contract holds exactly
-// the sum of the fusions in QSR, the pillar contract exactly the sum of the stakes in ZNN, the swap contract nothing.
+// held token is declared, no amount (balance, fusion, pillar stake, swap) is missing or negative, no address has two entries,
+// the plasma contract holds exactly the sum of the fusions in QSR, the pillar contract exactly the sum of the stakes in ZNN,
+// the swap contract nothing.
 func monitorAccepted(c *Ctx, tag string, cfg *genesis.GenesisConfig) {
 	seen := map[types.Address]bool{}
 	var addrs []types.Address
@@ -386,6 +387,34 @@ func monitorAccepted(c *Ctx, tag string, cfg *genesis.GenesisConfig) {
 			seen[b.Address] = true
 			addrs = append(addrs, b.Address)
 		}
+	}
+	// every fusion, pillar and swap amount is present and not negative (check_genesis_amounts): the contracts store them as
+	// unsigned 256-bit values, so a negative one becomes 2^256-v while it lowers the sum compared with the balance. Looked at
+	// BEFORE the chain is started: packing such an amount rewrites the configuration's big.Int in place.
+	malformed := false
+	for i, f := range cfg.PlasmaConfig.Fusions {
+		if f == nil || f.Amount == nil || f.Amount.Sign() < 0 {
+			malformed = true
+			a := "nilentry"
+			if f != nil {
+				a = gnAmt(f.Amount)
+			}
+			c.Fail("CheckGenesis accepted (%s) the fusion amount %s (fusion %d) [%s]", tag, a, i, encodeCfg(cfg))
+		}
+	}
+	for i, p := range cfg.PillarConfig.Pillars {
+		if p.Amount == nil || p.Amount.Sign() < 0 {
+			malformed = true
+			c.Fail("CheckGenesis accepted (%s) the pillar amount %s (pillar %d) [%s]", tag, gnAmt(p.Amount), i, encodeCfg(cfg))
+		}
+	}
+	for i, e := range cfg.SwapConfig.Entries {
+		if e.Znn == nil || e.Qsr == nil || e.Znn.Sign() < 0 || e.Qsr.Sign() < 0 {
+			c.Fail("CheckGenesis accepted (%s) the swap amounts %s / %s (entry %d) [%s]", tag, gnAmt(e.Znn), gnAmt(e.Qsr), i, encodeCfg(cfg))
+		}
+	}
+	if malformed {
+		return // the sums below are not defined
 	}
 	bal, kind := ledgerAfterGenesis(cfg, addrs)
 	if kind != "ok" {
@@ -820,6 +849,84 @@ var perturbations = []perturbation{
 			})
 		}
 	}},
+	{"negative-fusion", true, func(c *Ctx, cfg *genesis.GenesisConfig) bool {
+		// a negative fusion amount, compensated so that the SUM of the fusions still equals the plasma contract's balance
+		v := big.NewInt(1 + int64(c.R.Intn(1000)))
+		f := cfg.PlasmaConfig.Fusions
+		if len(f) >= 2 && c.R.Intn(2) == 0 {
+			// an existing fusion becomes -v, another one takes over the difference
+			i := c.R.Intn(len(f))
+			j := (i + 1 + c.R.Intn(len(f)-1)) % len(f)
+			f[j].Amount.Add(f[j].Amount, f[i].Amount)
+			f[j].Amount.Add(f[j].Amount, v)
+			f[i].Amount = new(big.Int).Neg(v)
+			return true
+		}
+		// two fresh fusions of -v and +v
+		o, b := randAddr(c, 0), randAddr(c, 0)
+		cfg.PlasmaConfig.Fusions = append(cfg.PlasmaConfig.Fusions,
+			&definition.FusionInfo{Owner: o, Id: gnRandHash(c), Amount: new(big.Int).Neg(v), ExpirationHeight: 1, Beneficiary: b},
+			&definition.FusionInfo{Owner: o, Id: gnRandHash(c), Amount: v, ExpirationHeight: 1, Beneficiary: b})
+		return true
+	}},
+	{"negative-pillar-amount", true, func(c *Ctx, cfg *genesis.GenesisConfig) bool {
+		// a negative pillar stake, compensated by another pillar (an existing one, or a new one) so that the SUM of the
+		// stakes still equals the pillar contract's balance
+		v := big.NewInt(1 + int64(c.R.Intn(1000)))
+		p := cfg.PillarConfig.Pillars
+		i := c.R.Intn(len(p))
+		diff := new(big.Int).Add(p[i].Amount, v)
+		p[i].Amount = new(big.Int).Neg(v)
+		if len(p) >= 2 {
+			j := (i + 1 + c.R.Intn(len(p)-1)) % len(p)
+			p[j].Amount.Add(p[j].Amount, diff)
+		} else {
+			a := randAddr(c, 0)
+			cfg.PillarConfig.Pillars = append(p, &definition.PillarInfo{Name: fmt.Sprintf("zv-pillar-x-%d", c.R.Intn(1000)), BlockProducingAddress: a,
+				StakeAddress: a, RewardWithdrawAddress: a, Amount: diff, RegistrationTime: cfg.GenesisTimestampSec})
+		}
+		return true
+	}},
+	{"negative-swap-entry", true, func(c *Ctx, cfg *genesis.GenesisConfig) bool {
+		// a swap entry with a negative amount (an existing entry, or a new one); nothing is summed over swap entries
+		v := big.NewInt(-1 - int64(c.R.Intn(1000)))
+		var e *definition.SwapAssets
+		if n := len(cfg.SwapConfig.Entries); n > 0 && c.R.Intn(2) == 0 {
+			e = cfg.SwapConfig.Entries[c.R.Intn(n)]
+		} else {
+			e = &definition.SwapAssets{KeyIdHash: gnRandHash(c), Znn: big.NewInt(int64(c.R.Intn(5))), Qsr: big.NewInt(int64(c.R.Intn(5)))}
+			cfg.SwapConfig.Entries = append(cfg.SwapConfig.Entries, e)
+		}
+		if c.R.Intn(2) == 0 {
+			e.Znn = v
+		} else {
+			e.Qsr = v
+		}
+		return true
+	}},
+	{"nil-fusion-amount", true, func(c *Ctx, cfg *genesis.GenesisConfig) bool {
+		// a fusion whose Amount is missing: an existing one (then the sum changes as well) or an extra one
+		if n := len(cfg.PlasmaConfig.Fusions); n > 0 && c.R.Intn(2) == 0 {
+			cfg.PlasmaConfig.Fusions[c.R.Intn(n)].Amount = nil
+		} else {
+			cfg.PlasmaConfig.Fusions = append(cfg.PlasmaConfig.Fusions, &definition.FusionInfo{Owner: randAddr(c, 0), Id: gnRandHash(c), Beneficiary: randAddr(c, 0)})
+		}
+		return true
+	}},
+	{"nil-pillar-amount", true, func(c *Ctx, cfg *genesis.GenesisConfig) bool {
+		p := cfg.PillarConfig.Pillars
+		if c.R.Intn(2) == 0 {
+			// a zero stake replaced by nil leaves the sum alone; otherwise any pillar
+			for _, i := range c.R.Perm(len(p)) {
+				if p[i].Amount.Sign() == 0 {
+					p[i].Amount = nil
+					return true
+				}
+			}
+		}
+		p[c.R.Intn(len(p))].Amount = nil
+		return true
+	}},
 	{"supply-above-max", true, func(c *Ctx, cfg *genesis.GenesisConfig) bool {
 		t := cfg.TokenConfig.Tokens[c.R.Intn(len(cfg.TokenConfig.Tokens))]
 		if t.TotalSupply.Sign() <= 0 {
@@ -842,6 +949,12 @@ var perturbations = []perturbation{
 	}},
 	// --- perturbations that change no sum: must stay accepted ---
 	{"permute-only", false, func(c *Ctx, cfg *genesis.GenesisConfig) bool { return true }},
+	{"zero-fusion-and-swap-amounts", false, func(c *Ctx, cfg *genesis.GenesisConfig) bool {
+		// the accepted side of the sign checks: amounts of exactly zero
+		cfg.PlasmaConfig.Fusions = append(cfg.PlasmaConfig.Fusions, &definition.FusionInfo{Owner: randAddr(c, 0), Id: gnRandHash(c), Amount: big.NewInt(0), Beneficiary: randAddr(c, 0)})
+		cfg.SwapConfig.Entries = append(cfg.SwapConfig.Entries, &definition.SwapAssets{KeyIdHash: gnRandHash(c), Znn: big.NewInt(0), Qsr: big.NewInt(0)})
+		return true
+	}},
 	{"supply-equals-max", false, func(c *Ctx, cfg *genesis.GenesisConfig) bool {
 		// the accepted side of the MaxSupply boundary
 		t := cfg.TokenConfig.Tokens[c.R.Intn(len(cfg.TokenConfig.Tokens))]
@@ -883,13 +996,24 @@ var inconsistentKinds = map[string]string{
 	"duplicate-contract-block":   "two entries for one contract counted twice in TotalSupply: the ledger keeps one balance per (address, token)",
 	"negative-balance":           "a negative amount offsets a positive one in the declared TotalSupply: the ledger stores its absolute value",
 	"supply-above-max":           "a declared TotalSupply above the token's MaxSupply",
+	"negative-fusion":            "a negative fusion amount offsets others in the sum compared with the plasma contract's balance: it is stored as 2^256-v, the stored fusions exceed what the contract holds",
+	"negative-pillar-amount":     "a negative pillar stake offsets others in the sum compared with the pillar contract's balance: it is stored as 2^256-v, the stored stakes exceed what the contract holds",
+	"negative-swap-entry":        "a swap entry with a negative amount: it is stored as a claim of 2^256-v",
+	// malformed rather than inconsistent: an amount is missing altogether
+	"nil-fusion-amount": "a fusion without amount",
+	"nil-pillar-amount": "a pillar without stake amount",
+	"nil-balance":       "a balance list entry without amount",
+	"nil-max-supply":    "a token without MaxSupply",
 }
 
 // directedKinds: run in rotation on EVERY configuration (two per configuration) in addition to the random draws, so that
 // each of the repaired gaps of the validators (F13a no contract entry, F13b duplicate entry, F13e negative / missing
-// amount, F13c MaxSupply) and the accepted side of the new checks is exercised on every run whatever the seed.
+// amount, F13c MaxSupply, F13f negative / missing fusion, pillar, swap amount) and the accepted side of the new checks is
+// exercised on every run whatever the seed.
 var directedKinds = []string{"drop-plasma-contract-block", "duplicate-user-block", "negative-balance", "supply-above-max",
-	"drop-pillar-contract-block", "nil-balance", "duplicate-contract-block", "nil-max-supply", "supply-equals-max", "duplicate-empty-block"}
+	"negative-fusion", "negative-pillar-amount", "negative-swap-entry",
+	"drop-pillar-contract-block", "nil-balance", "duplicate-contract-block", "nil-max-supply", "supply-equals-max", "duplicate-empty-block",
+	"nil-fusion-amount", "nil-pillar-amount", "zero-fusion-and-swap-amounts"}
 
 func perturbationByName(name string) perturbation {
 	for _, p := range perturbations {
@@ -1350,9 +1474,9 @@ func init() {
 				} else {
 					c.Hit("readfile-null-skip:" + nk.name)
 				}
-				// the four repaired gaps through the file as well (the path a node takes)
+				// the repaired gaps through the file as well (the path a node takes)
 				dk := perturbationByName([]string{"drop-plasma-contract-block", "duplicate-user-block", "negative-balance", "supply-above-max",
-					"drop-pillar-contract-block", "duplicate-contract-block"}[(k/4)%6])
+					"negative-fusion", "negative-pillar-amount", "negative-swap-entry", "drop-pillar-contract-block", "duplicate-contract-block"}[(k/4)%9])
 				dc := permuteCfg(c, cfg)
 				if dk.f(c, dc) {
 					rawd, _ := json.Marshal(dc)
